@@ -358,6 +358,9 @@ func (s *Script) valid(t types.Type, x string, alloc string, depth int) []string
 		out = append(out, fmt.Sprintf("(< %s %s)", x, alloc))
 		if _, isp := u.(*types.Pointer); !isp {
 			out = append(out, fmt.Sprintf("(>= %s 0)", x))
+		} else {
+			// a non-nil pointer denotes (part of) an allocated object
+			out = append(out, fmt.Sprintf("(=> (not (= %s 0)) (and (> (rootref %s) 0) (< (rootref %s) %s)))", x, x, x, alloc))
 		}
 	case *types.Slice:
 		out = append(out,
